@@ -84,6 +84,20 @@ func paramDeps(fi *FuncInfo, e ast.Expr) []string {
 	info := fi.Pkg.TypesInfo
 	defs := localDefsOf(fi)
 	root := fi.Root()
+	// a post-baseline helper with a single call site: its parameters depend on what the caller passes
+	if canonSingleCaller != nil {
+		if caller, call := canonSingleCaller(root); caller != nil && call != nil && root.Sig != nil && caller.Pkg == fi.Pkg && !root.Sig.Variadic() && len(call.Args) == root.Sig.Params().Len() {
+			for o, ds := range localDefsOf(caller) {
+				if _, dup := defs[o]; !dup {
+					defs[o] = ds
+				}
+			}
+			for i := 0; i < root.Sig.Params().Len(); i++ {
+				defs[root.Sig.Params().At(i)] = append(defs[root.Sig.Params().At(i)], localDef{call.Args[i], -1})
+			}
+			root = caller.Root()
+		}
+	}
 	isParam := map[types.Object]bool{}
 	if root.Sig != nil {
 		if r := root.Sig.Recv(); r != nil {
@@ -139,6 +153,10 @@ func paramDeps(fi *FuncInfo, e ast.Expr) []string {
 	return names
 }
 
+// canonSingleCaller (set by the checker context): for a helper that the validated tree does not have and that is called
+// from exactly one call site (and never used as a value), that caller and call.
+var canonSingleCaller func(helper *FuncInfo) (*FuncInfo, *ast.CallExpr)
+
 // canonExpr renders an expression with single-assignment locals replaced by their definitions and the remaining
 // locals anonymised; parameters keep their names.
 func canonExpr(fi *FuncInfo, e ast.Expr, fset *token.FileSet) string {
@@ -169,9 +187,47 @@ func canonExpr(fi *FuncInfo, e ast.Expr, fset *token.FileSet) string {
 			inlRes[o] = ds[0]
 		}
 	}
+	root := fi.Root()
+	// a helper introduced after the validated tree, called from exactly one place: its parameters are spelled as the
+	// arguments of that call (with the caller's own single-assignment locals inlined), so that a reviewed site keeps its
+	// key when the statement around it is moved into a helper
+	if canonSingleCaller != nil {
+		if caller, call := canonSingleCaller(root); caller != nil && call != nil && root.Sig != nil && caller.Pkg == fi.Pkg {
+			np := root.Sig.Params().Len()
+			if !root.Sig.Variadic() && len(call.Args) == np {
+				for i := 0; i < np; i++ {
+					p := root.Sig.Params().At(i)
+					if assignedIn(root, p) {
+						continue
+					}
+					inl[p] = call.Args[i]
+				}
+				cdefs := localDefsOf(caller)
+				cpar := map[types.Object]bool{}
+				if cs := caller.Root().Sig; cs != nil {
+					for i := 0; i < cs.Params().Len(); i++ {
+						cpar[cs.Params().At(i)] = true
+					}
+				}
+				for o, ds := range cdefs {
+					if len(ds) != 1 || cpar[o] {
+						continue
+					}
+					if _, dup := inl[o]; dup {
+						continue
+					}
+					if ds[0].idx == -1 {
+						inl[o] = ds[0].e
+					} else if ds[0].idx >= 0 {
+						inlRes[o] = ds[0]
+					}
+				}
+				root = caller.Root()
+			}
+		}
+	}
 	tb := &termBuilder{info: info, inl: inl, inlRes: inlRes, fset: fset}
 	t := tb.term(e)
-	root := fi.Root()
 	isParam := map[types.Object]bool{}
 	// a renamed parameter keeps the name the reviewed tables know it by (same position, unchanged signature)
 	tableName := map[types.Object]string{}
